@@ -282,6 +282,42 @@ func init() {
 		return bigSet(f, recv, args[0].(Sc).T, st)
 	}
 	externs[bi+"SetInt64"] = externs[bi+"SetUint64"]
+	// SetBytes: the big-endian unsigned value of the bytes (slices of literal length up to 64)
+	externs[bi+"SetBytes"] = func(f *Frame, call *ast.CallExpr, recv Val, args []Val, st *State) []Val {
+		b := args[0].(SliceV)
+		if !b.Len.IsLit() || b.Len.lit.Int64() > 64 {
+			f.in.unsupported(call.Pos(), "big.Int.SetBytes of a slice whose length is not a small constant")
+		}
+		return bigSet(f, recv, be(f.in.regionContent(st, b.Reg, f), b.Off, int(b.Len.lit.Int64())), st)
+	}
+	// crypto primitives: deterministic, uninterpreted
+	externs["crypto/elliptic.P256"] = func(f *Frame, call *ast.CallExpr, recv Val, args []Val, st *State) []Val {
+		f.in.D.declareSort("Iface")
+		f.in.D.declareOnce("p256", "(declare-const curve_p256 Iface)")
+		return []Val{Sc{Term{S: "curve_p256", Sort: "Iface"}}}
+	}
+	externs["crypto/elliptic.UnmarshalCompressed"] = func(f *Frame, call *ast.CallExpr, recv Val, args []Val, st *State) []Val {
+		in := f.in
+		mk := func(h string) Val {
+			c := in.newCell(h, CVar, nil)
+			st.store[c] = Sc{in.D.fresh(h, SInt)}
+			return PtrV{To: c, Nil: in.D.fresh(h+"_nil", SBool)}
+		}
+		in.note("elliptic.UnmarshalCompressed: arbitrary point or nil (curve arithmetic not modelled)")
+		return []Val{mk("px"), mk("py")}
+	}
+	externs["crypto/sha256.Sum256"] = func(f *Frame, call *ast.CallExpr, recv Val, args []Val, st *State) []Val {
+		in := f.in
+		in.D.declareFun("sha256", []string{SStr}, ArrSort(SInt))
+		h := App("sha256", ArrSort(SInt), f.strOfSlice(args[0], st))
+		in.arrayRangeAxiomSt(h, types.Typ[types.Uint8], st)
+		in.note("sha256.Sum256: uninterpreted function of the bytes")
+		return []Val{ArrV{T: h, N: 32}}
+	}
+	externs["crypto/ecdsa.Verify"] = func(f *Frame, call *ast.CallExpr, recv Val, args []Val, st *State) []Val {
+		f.in.note("ecdsa.Verify: arbitrary verdict (curve arithmetic not modelled)")
+		return []Val{Sc{f.in.D.fresh("ecdsa_ok", SBool)}}
+	}
 	externs[bi+"Set"] = func(f *Frame, call *ast.CallExpr, recv Val, args []Val, st *State) []Val {
 		return bigSet(f, recv, bigVal(f, args[0], st), st)
 	}
